@@ -204,6 +204,7 @@ var envFaults = []string{
 	"outage_atom_1", "outage_atom_5", "outage_atom_20", "outage_atom_200", "outage_all_1", "outage_all_2", "outage_all_5", "outage_all_20", "outage_all_200",
 	"gap_1h", "gap_25h", "gap_8d", "gap_40d", "gap_400d", "gap_400d_then_outage", "empty_burst_60", "gaps_repeated_week",
 	"pool_drain_same_block", "pools_nearly_emptied", "dust_everything", "failing_txs_with_fees",
+	"provider_vesting_slots_full", "vesting_slots_zero_then_epochs",
 }
 
 func init() {
@@ -339,6 +340,17 @@ func applyFault(c *run.Ctx, w *chain.World, g freeGen, name string, edges map[st
 			w.Tx(u[6], &perptypes.MsgOpen{Creator: u[6].S(), Position: perptypes.Position_LONG, Leverage: d("2"), TradingAsset: "uatom", Collateral: chain.Coin("uusdc", 1), TakeProfitPrice: w.Prices["ATOM"].MulInt64(3), StopLossPrice: math.LegacyZeroDec(), PoolId: 1}),
 			w.Tx(u[7], &commitmenttypes.MsgVest{Creator: u[7].S(), Amount: math.NewInt(1), Denom: "ueden"}))
 		g.Free(4, func(i int) int64 { return []int64{86400, 86400 * 30, 5, 5}[i] })
+	case name == "provider_vesting_slots_full":
+		// the provider reward account vests its Eden at every provider-vesting epoch; with few vesting
+		// slots and a long schedule the slots are all taken after a few epochs
+		w.GovExec(name, &commitmenttypes.MsgUpdateVestingInfo{Authority: w.Gov, BaseDenom: "ueden", VestingDenom: "uelys", NumBlocks: 10_000_000, VestNowFactor: 90, NumMaxVestings: 2})
+		g.Free(10, func(i int) int64 { return []int64{11 * 86400, 5}[i%2] })
+	case name == "vesting_slots_zero_then_epochs":
+		w.GovExec(name, &commitmenttypes.MsgUpdateVestingInfo{Authority: w.Gov, BaseDenom: "ueden", VestingDenom: "uelys", NumBlocks: 1000, VestNowFactor: 90, NumMaxVestings: 0})
+		p := w.App.EstakingKeeper.GetParams(w.ReadCtx())
+		p.ProviderVestingEpochIdentifier = "fiveminutes"
+		w.GovExec(name+"/epoch", &estakingtypes.MsgUpdateParams{Authority: w.Gov, Params: p})
+		g.Free(8, func(i int) int64 { return 301 })
 	case name == "failing_txs_with_fees":
 		// transactions that fail in the message while paying fees in every denom
 		for i := 0; i < 6 && !w.Dead; i++ {
